@@ -128,3 +128,31 @@ func retype(r *Rand, t *schema.Type) *schema.Type {
 		}
 	}
 }
+
+// StripHolders returns a fresh twin of dynamic struct t with the same fields
+// and no unknown-fields holder at any (dynamic) nesting level.
+func StripHolders(t *schema.Struct) *schema.Struct {
+	if !isDynamic(t) {
+		return t
+	}
+	n := &schema.Struct{UnknownIdx: -1}
+	for _, f := range t.Fields {
+		n.Fields = append(n.Fields, &schema.Field{ID: f.ID, Req: f.Req, T: stripType(f.T), NoCopy: f.NoCopy})
+	}
+	n.Build()
+	return n
+}
+
+func stripType(t *schema.Type) *schema.Type {
+	switch t.K {
+	case schema.StructK:
+		return schema.StructOf(StripHolders(t.S), t.Ptr)
+	case schema.List:
+		return schema.ListOf(stripType(t.Elem))
+	case schema.Set:
+		return schema.SetOf(stripType(t.Elem))
+	case schema.Map:
+		return schema.MapOf(stripType(t.Key), stripType(t.Elem))
+	}
+	return t
+}
